@@ -85,7 +85,11 @@ type scenario struct {
 	PreAlloc  int `json:"preAlloc"`
 	PreAllocN int `json:"preAllocN"`
 	// NilHandler: no panic handler is installed (SetPanicHandler(nil)); job panics must still be contained
-	NilHandler bool      `json:"nilHandler"`
+	NilHandler bool `json:"nilHandler"`
+	// KeepQueueOpen: SetIsJobQueueClosedWhenClose(false): Close() only closes the pool, not the job queue
+	KeepQueueOpen bool `json:"keepQueueOpen"`
+	// ViaSetters: the job queue and the Invokables are installed through SetJobQueue / SetWorkerPool / SetCallee
+	ViaSetters bool      `json:"viaSetters"`
 	Plan       vlib.Plan `json:"plan"`
 }
 
@@ -113,7 +117,7 @@ func (s scenario) String() string {
 		}
 		sb.WriteString("]")
 	}
-	fmt.Fprintf(&sb, " close=%v directedExit=%v preAlloc=%dx(%d) nilHandler=%v plan=%v", s.Close, s.DirectedExit, s.PreAlloc, s.PreAllocN, s.NilHandler, s.Plan)
+	fmt.Fprintf(&sb, " close=%v directedExit=%v preAlloc=%dx(%d) nilHandler=%v keepQueueOpen=%v viaSetters=%v plan=%v", s.Close, s.DirectedExit, s.PreAlloc, s.PreAllocN, s.NilHandler, s.KeepQueueOpen, s.ViaSetters, s.Plan)
 	return sb.String()
 }
 
@@ -196,6 +200,8 @@ func genScenario(t *rapid.T) scenario {
 		s.PreAllocN = rapid.IntRange(1, c.Max+2).Draw(t, "preAllocN")
 	}
 	s.NilHandler = rapid.IntRange(0, 4).Draw(t, "nilHandler") == 0
+	s.KeepQueueOpen = rapid.IntRange(0, 3).Draw(t, "keepQueueOpen") == 0
+	s.ViaSetters = rapid.IntRange(0, 3).Draw(t, "viaSetters") == 0
 	s.Plan = vlib.DrawPlan(t, poolPoints, 6)
 	return s
 }
@@ -250,7 +256,17 @@ func runScenario(s scenario) result {
 	var handlerMu sync.Mutex
 	handlerCalls := map[int]int{}
 	handlerBad := ""
-	pool := worker.NewDefaultWorkerPool(q, nil)
+	var pool *worker.DefaultWorkerPool
+	if s.ViaSetters {
+		// constructed on a throw-away queue, the real one is installed before first use
+		pool = worker.NewDefaultWorkerPool(fpgo.NewBufferedChannelQueue[func()](1, 1, 1), nil).SetJobQueue(q)
+	} else {
+		pool = worker.NewDefaultWorkerPool(q, nil)
+	}
+	if s.KeepQueueOpen {
+		pool.SetIsJobQueueClosedWhenClose(false)
+		defer q.Close()
+	}
 	sched.Track(pool)
 	// directed exit: an exiting worker is released once a trySpawn that started after it has finished
 	if s.DirectedExit {
@@ -379,7 +395,11 @@ func runScenario(s scenario) result {
 		case apiInvoke:
 			// Invoke has no result: observe what it got from the pool through a recording WorkerPool
 			rp := &recPool{WorkerPool: pool}
-			worker.NewDefaultInvokable[int](rp, func(int) { job() }).Invoke(x.Job)
+			inv := worker.NewDefaultInvokable[int](rp, func(int) { job() })
+			if s.ViaSetters {
+				inv = worker.NewDefaultInvokable[int](nil, nil).SetWorkerPool(rp).SetCallee(func(int) { job() })
+			}
+			inv.Invoke(x.Job)
 			if rp.calls != 1 {
 				fail("C09/invoke", "Invoke(%d) called Schedule %d times, want exactly once", x.Job, rp.calls)
 				hasErr = false
@@ -387,7 +407,11 @@ func runScenario(s scenario) result {
 				err = rp.err
 			}
 		case apiInvokeTimeout:
-			err = worker.NewDefaultInvokable[int](pool, func(int) { job() }).InvokeWithTimeout(x.Job, timeout)
+			inv := worker.NewDefaultInvokable[int](pool, func(int) { job() })
+			if s.ViaSetters {
+				inv = worker.NewDefaultInvokable[int](nil, nil).SetCallee(func(int) { job() }).SetWorkerPool(pool)
+			}
+			err = inv.InvokeWithTimeout(x.Job, timeout)
 		}
 		switch {
 		case !hasErr:
@@ -687,6 +711,32 @@ func TestRegress(t *testing.T) {
 			vlib.S().NonTrivial("regress", s.String())
 		}
 		report(t, s, res, func() {})
+	}
+	// workerSizeMaximum against racing spawners: several PreAllocWorkerSize callers and the spawn loop
+	// (woken by Schedule) try to add workers at the same moment on a fresh pool, many times over
+	for rep := 0; rep < vlib.Pick(150, 1500); rep++ {
+		max := 1 + rep%3
+		s := scenario{Cfg: poolCfg{Max: max, StandBy: 1, Batch: 1, ChanCap: 3, Buffer: 5, SpawnUs: 50, JamUs: 1000000},
+			PreAlloc: 3, PreAllocN: max + 2}
+		var subs [][]submission
+		for w := 0; w < 2; w++ {
+			var l []submission
+			for j := 0; j < 4; j++ {
+				s.Jobs = append(s.Jobs, jobSpec{Dur: durSleep, N: 200})
+				l = append(l, submission{Job: len(s.Jobs) - 1, API: apiSchedule})
+			}
+			subs = append(subs, l)
+		}
+		s.Phases = []phase{{Subs: subs}}
+		vlib.S().Eval("prealloc-race")
+		res := runScenario(s)
+		if res.nontrivial && rep < 3 {
+			vlib.S().NonTrivial("prealloc-race", s.String())
+		}
+		report(t, s, res, func() {})
+		if res.failKey != "" {
+			break
+		}
 	}
 }
 
